@@ -210,8 +210,15 @@ def build_executor(ctx, tags="verif"):
     gen = os.path.join(HARNESS, "arkx", "typed_gen.go")
     if not os.path.exists(gen):
         subprocess.check_call([sys.executable, os.path.join(HARNESS, "gen", "gen.py"), "3", gen])
-    shutil.copy(os.path.join(REPO, "go.sum"), os.path.join(HARNESS, "go.sum"))
-    p, dt = run(["go", "build", "-tags", tags, "-o", out, "./cmd/arkexec"], 600, env=GOENV, cwd=HARNESS)
+    hdir = HARNESS
+    if os.path.realpath(REPO) != "/repo":
+        # a scratch copy of the repository (seed sweeps): build from a private copy of the harness
+        hdir = os.path.join(ctx.work, "harness")
+        shutil.copytree(HARNESS, hdir)
+        gm = open(os.path.join(hdir, "go.mod")).read().replace("=> /repo", "=> " + os.path.realpath(REPO))
+        open(os.path.join(hdir, "go.mod"), "w").write(gm)
+    shutil.copy(os.path.join(REPO, "go.sum"), os.path.join(hdir, "go.sum"))
+    p, dt = run(["go", "build", "-tags", tags, "-o", out, "./cmd/arkexec"], 600, env=GOENV, cwd=hdir)
     if p.returncode != 0:
         raise Inconclusive("executor build failed:\n" + p.stdout[-3000:])
     ctx.binpath = out
